@@ -465,6 +465,22 @@ Theorem cache_key_injective : forall a b,
 Proof. exact ser_le8_injective. Qed.
 Print Assumptions cache_key_injective.
 
+(* Round 7. The process has ONE fastcache for all configured nodes; the view of a node (numbercache.Cache.DB) puts the node's
+   name in front of the 8 bytes. The byte key determines BOTH the node and the 64-bit key, whatever the node names are (one
+   may be a prefix of the other): what node A confirmed is never a hit on node B, so each node's announcements are those of
+   the single-node model on the pushes sent to it (the check judges two-node histories node by node). *)
+Theorem cache_key_injective_with_node : forall n m a b,
+  0 <= a < 2 ^ 64 -> 0 <= b < 2 ^ 64 -> view_key_code n a = view_key_code m b -> n_node n = n_node m /\ a = b.
+Proof. exact view_key_code_injective. Qed.
+Print Assumptions cache_key_injective_with_node.
+
+(* The prefix must be the node name: with the name of the node's DATABASE (the same for every entry by default) two different
+   nodes share every key (seeded change C04-g: a push to the second node is acknowledged without any series row there). *)
+Theorem cache_key_by_database_name_refuted : exists n m,
+  n_node n <> n_node m /\ (forall k, view_key_by_db n k = view_key_by_db m k) /\ view_key_code n 7 <> view_key_code m 7.
+Proof. exact (ex_intro _ ex_ch1 (ex_intro _ ex_ch2 view_key_by_db_collides)). Qed.
+Print Assumptions cache_key_by_database_name_refuted.
+
 (* ... and it is what makes the triple-keyed cache of SeriesIndex.v the right abstraction: for every
    key hash and serializer whose composition is injective on announcements (the hash part is a
    collision-freeness hypothesis on CH64, not established), the parser that reads the byte-keyed cache
